@@ -1167,14 +1167,24 @@ def bump(d, k):
     return d
 
 
+class StructureMismatch(Exception):
+    """the object handed to the harness does not have the structure of its descriptor (an observation about the code)"""
+
+
 def write_through(x, d):
     """in-place write of the content of descriptor [d] through the (memory-mapped) tensordict x; returns number of leaves written"""
     k = d["k"]
     n = 0
+    if type_tag(x) != k and k in ("td", "lazy", "tc"):
+        raise StructureMismatch(f"expected a {k}, found {type_tag(x)}")
+    if k == "lazy" and len(x.tensordicts) != len(d["members"]):
+        raise StructureMismatch(f"expected {len(d['members'])} members, found {len(x.tensordicts)}")
     if k == "td":
         for key, e in d["ents"]:
             if e["k"] == "leaf":
                 if numel(e["shape"]):
+                    if x._get_str(key, None) is None:
+                        raise StructureMismatch(f"entry {key!r} is missing")
                     x.set_(key, make_plain(e))
                     n += 1
             else:
@@ -1250,7 +1260,7 @@ def guarded(R, prefix, case, f, *a):
     except EXC as e:  # noqa: BLE001
         tb = traceback.extract_tb(e.__traceback__)
         where = [f"{os.path.basename(fr.filename)}:{fr.lineno}:{fr.name}" for fr in tb][-4:]
-        if not any("tensordict" in fr.filename or "torch" in fr.filename for fr in tb):
+        if not isinstance(e, StructureMismatch) and not any("tensordict" in fr.filename or "torch" in fr.filename for fr in tb):
             raise          # the machinery itself
         fail(R, prefix, "unexpected-exception", case, {"exc": repr(e)[:300], "where": where})
         return None
@@ -1923,6 +1933,36 @@ def unflatten(files, dirs):
 
 
 # ====================================================================================================== main
+class _Recorder:
+    """what a forked worker of the thorough tier sends back"""
+    quick = False
+
+    def __init__(self):
+        self.rec = {"fails": [], "mm": [], "traces": 0, "hist": {}, "model_q": []}
+
+    traces = property(lambda self: self.rec["traces"], lambda self, v: self.rec.__setitem__("traces", v))
+
+    def oracle_fail(self, label, case, detail, sig=None):
+        self.rec["fails"].append((label, case, detail, sig or {}))
+
+    def mismatch(self, label, case, impl, model):
+        self.rec["mm"].append((label, case, impl, model))
+
+    def count(self, k, n=1):
+        self.rec["hist"][k] = self.rec["hist"].get(k, 0) + n
+
+    def case(self, *a, **k):
+        pass
+
+
+def _save_worker(cases):
+    torch.set_num_threads(1)
+    r = _Recorder()
+    for c in cases:
+        save_case(r, c, r.rec["model_q"])
+    return r.rec
+
+
 def hist_structure(R, desc, prefix=""):
     ft = features(desc)
     for k in sorted(ft["kinds"]):
@@ -2026,11 +2066,8 @@ def main(R):
     budget = {"n5": 4 if quick else 10 ** 9}
     apis = ["memmap", "memmap_", "memmap_like", "save"]
     t_save = time.time()
+    planned = []
     for i in range(n_struct):
-        if quick and i >= 40 and time.time() - t_save > 60:
-            # the quick tier has a wall-clock budget: on a loaded machine the stream is cut (the count is in the evidence)
-            R.extra["save_stream_cut_at"] = i
-            break
         desc = gen_structure(rng)
         quirk = None
         if rng.random() < 0.3:
@@ -2042,15 +2079,37 @@ def main(R):
             add_elsewhere(rng, desc)
         api = apis[i % 4] if rng.random() < 0.7 else rng.choice(apis)
         runs, n, exhaustive = plan_runs(rng, desc, quick, budget)
-        case = {"stream": "save", "desc": desc, "api": api, "copy_existing": ce, "quirk": quirk, "runs": runs}
-        ft = hist_structure(R, desc)
-        R.count("api:" + api)
-        R.count("quirk:" + (quirk or ("elsewhere" if ft["mm_elsewhere"] else "none")))
+        planned.append(({"stream": "save", "desc": desc, "api": api, "copy_existing": ce, "quirk": quirk, "runs": runs}, n, exhaustive))
+
+    def register(i, case, n, exhaustive):
+        ft = hist_structure(R, case["desc"])
+        R.count("api:" + case["api"])
+        R.count("quirk:" + (case["quirk"] or ("elsewhere" if ft["mm_elsewhere"] else "none")))
         R.count("tasks:" + (str(n) if n < 8 else "8+"))
-        R.count("orders:" + ("all" if exhaustive else "sampled"), len(runs) - 4)
-        R.case(("save", json.dumps(desc, sort_keys=True), api, ce), nontrivial=ft["leaves"] + ft["nodes"] >= 2,
-               sample={k: v for k, v in case.items() if k != "runs"} if i % 40 == 7 else None)
-        save_case(R, case, model_q)
+        R.count("orders:" + ("all" if exhaustive else "sampled"), len(case["runs"]) - 4)
+        R.case(("save", json.dumps(case["desc"], sort_keys=True), case["api"], case["copy_existing"]),
+               nontrivial=ft["leaves"] + ft["nodes"] >= 2, sample={k: v for k, v in case.items() if k != "runs"} if i % 40 == 7 else None)
+    if quick:
+        for i, (case, n, exhaustive) in enumerate(planned):
+            if i >= 40 and time.time() - t_save > 60:
+                # the quick tier has a wall-clock budget: on a loaded machine the stream is cut (the count is in the evidence)
+                R.extra["save_stream_cut_at"] = i
+                break
+            register(i, case, n, exhaustive)
+            save_case(R, case, model_q)
+    else:
+        import multiprocessing as mp
+        chunks = [planned[j::14] for j in range(14)]
+        with mp.get_context("fork").Pool(14) as pool:
+            for rec in pool.imap_unordered(_save_worker, [[c for c, _, _ in ch] for ch in chunks]):
+                R.oracle_failures.extend(rec["fails"])
+                R.mismatches.extend(rec["mm"])
+                R.traces += rec["traces"]
+                for k, v in rec["hist"].items():
+                    R.count(k, v)
+                model_q.extend(rec["model_q"])
+        for i, (case, n, exhaustive) in enumerate(planned):
+            register(i, case, n, exhaustive)
     lap("save")
     # ---- (2) resave over a directory with content
     for i in range(50 if quick else 600):
